@@ -1,5 +1,6 @@
 import StraxModel.Lemmas.Kill
 import StraxModel.Lemmas.PostOffice
+import StraxModel.Lemmas.NetMeasure
 /-
   C06 — failures reach the caller and never hang the pipeline.
 
@@ -323,5 +324,103 @@ example : (PostOffice.readNext 50 (PostOffice.readNext 50 okBus 1).1 1).2 = .rai
     AllSpiesHealthy (PostOffice.readNext 50 (PostOffice.readNext 50 okBus 1).1 1).1 := by decide
 
 example : (PostOffice.procIter 50 okBus 1 .drain 50 []).2 = .raised (.inj 5) none := by decide
+
+/-! ## net level (ThreadedMailboxProcessor): Model/Net.lean, every net, every schedule -/
+
+/-- every maximal execution of every net is finite: the step relation is well-founded (no structural hypothesis;
+`Net.NState.measure` decreases with every step) -/
+theorem executions_finite (net : Net.Net) :
+    WellFounded (fun (s' s : Net.NState) => ∃ t, Net.step net s t = some s') := by
+  apply Subrelation.wf (r := InvImage (· < ·) Net.NState.measure)
+  · intro s' s ⟨t, h⟩
+    exact Net.step_decreases net s s' t h
+  · exact InvImage.wf _ Nat.lt_wfRel.wf
+
+/-- … with an explicit bound: no schedule is longer than the measure of the state it starts from -/
+theorem schedule_length_bounded (net : Net.Net) (sched : List Nat) (s s' : Net.NState)
+    (h : Net.run? net s sched = some s') : sched.length ≤ s.measure := by
+  have := Net.run_length_le net sched s s' h
+  omega
+
+/-- chunk lag of a stage program with respect to its k-th dependency: the largest excess of chunks fetched from it
+over results emitted, over all prefixes of the program -/
+def lagDep (k : Nat) : List Net.SInstr → Nat → Nat → Nat
+  | [], _, _ => 0
+  | .read j :: r, reads, emits =>
+    if j = k then max (reads + 1 - emits) (lagDep k r (reads + 1) emits) else lagDep k r reads emits
+  | .emit :: r, reads, emits => lagDep k r reads (emits + 1)
+  | .fail _ :: r, reads, emits => lagDep k r reads emits
+
+def lagOf (p : Net.PluginD) : Nat := ((List.range p.dependsOn.length).map fun k => lagDep k p.prog 0 0).foldl max 0
+
+/-- a stage that withholds `w` results: `w + 1` reads before its first result, then one result per read, the last `w`
+results after its input ended (an overlap-window plugin) -/
+def lagProg (n w : Nat) : List Net.SInstr :=
+  List.replicate (w + 1) (Net.SInstr.read 0) ++ (List.replicate (n - w) [Net.SInstr.emit, Net.SInstr.read 0]).flatten ++
+    List.replicate w Net.SInstr.emit
+
+/-- D10's shape: `cc` depends on the source `ss` and on `b2 ← b1 ← ss`; `n` chunks, both `b` plugins withhold `w` -/
+def d10 (n w : Nat) : Net.Components :=
+  { plugins := [("cc", 3), ("ss", 0), ("b2", 2), ("b1", 1)],
+    defs := [{ cls := "Src", provides := ["ss"], dependsOn := [], prog := List.replicate n .emit },
+             { cls := "B1", provides := ["b1"], dependsOn := ["ss"], prog := lagProg n w },
+             { cls := "B2", provides := ["b2"], dependsOn := ["b1"], prog := lagProg n w },
+             { cls := "CC", provides := ["cc"], dependsOn := ["ss", "b2"],
+               prog := (List.replicate n [Net.SInstr.read 0, .read 1, .emit]).flatten ++ [.read 0, .read 1] }],
+    loaders := [], savers := [], targets := ["cc"] }
+
+def d10Net (cap : Nat) : Net.Net := Net.wire (d10 8 3) { allowLazy := false, maxMessages := cap } .drain
+
+/-- threads of `d10Net`: 0 = build:cc, 1 = build:ss, 2 = build:b2, 3 = build:b1, 4 = main -/
+def d10Sched : List Nat := [1, 2, 3, 4, 0, 1, 3, 0, 1, 3, 1, 3, 1, 3, 1, 2, 3, 2, 3, 2, 3, 2, 3, 2, 3, 2]
+
+/-- D10 (open finding): `terminates_without_failure` with the property's own hypothesis — the capacity (5) exceeds
+the largest chunk lag of ANY plugin (4) — is false: no stage fails, yet after 26 steps no thread can move, nothing has
+ended and the consumer has no result.  (The `ss` mailbox is full of chunks `cc` has not read, `b1` waits for the
+next `ss` chunk, `b2` for `b1`, `cc` for `b2`.)  The lags add up along the branch `b1 → b2`: 4 + 4 > 5. -/
+theorem reconvergent_deadlock_counterexample :
+    (∀ p ∈ (d10 8 3).defs, lagOf p < 5) ∧
+    (Net.run? (d10Net 5) (Net.init (d10Net 5)) d10Sched).map
+      (fun s => (s.terminal (d10Net 5), s.allEnded, s.outcome)) = some (true, false, none) := by
+  decide +kernel
+
+/-- the same net with capacity 6 runs to completion (this schedule; `terminates_without_failure_partial` is about
+trees, where every capacity ≥ 1 is enough) -/
+example : (Net.run? (d10Net 6) (Net.init (d10Net 6))
+    [1, 2, 3, 4, 0, 1, 3, 0, 1, 3, 1, 3, 1, 3, 1, 2, 3, 1, 2, 3, 2, 3, 2, 3, 2, 3, 2, 3, 2, 3, 2, 0, 2, 0, 4, 0, 1, 3, 4, 0, 1, 3,
+     2, 3, 2, 3, 0, 2, 3, 0, 2, 3, 4, 0, 2, 3, 4, 0, 2, 0, 2, 4, 0, 2, 4, 0, 2, 0, 2, 4, 0, 2, 4, 0, 2, 0, 2, 4, 0, 4, 0, 0, 4, 0,
+     4, 0, 0, 4, 0, 4, 0, 0, 4, 0, 4, 0, 0, 4, 4, 4, 4, 4, 4, 4, 4, 4, 4]).map
+    (fun s => (s.terminal (d10Net 6), s.allEnded, s.outcome)) = some (true, true, some .returned) := by
+  decide +kernel
+
+/-- a multi-output plugin `MO` (outputs xx → target plugin, yy saved, zz discarded) whose saver of `yy` fails at chunk `k` -/
+def d28 (n k : Nat) : Net.Components :=
+  { plugins := [("tt", 2), ("xx", 1), ("ss", 0)],
+    defs := [{ cls := "Src", provides := ["ss"], dependsOn := [], prog := List.replicate n .emit },
+             { cls := "MO", provides := ["xx", "yy", "zz"], dependsOn := ["ss"],
+               prog := (List.replicate n [Net.SInstr.read 0, .emit]).flatten ++ [.read 0] },
+             { cls := "TT", provides := ["tt"], dependsOn := ["xx"],
+               prog := (List.replicate n [Net.SInstr.read 0, .emit]).flatten ++ [.read 0] }],
+    loaders := [], savers := [("yy", [{ failAt := some k, exc := 7 }])], targets := ["tt"] }
+
+def d28Net (guarded : Bool) : Net.Net :=
+  Net.wire (d28 1 0) { allowLazy := false, maxMessages := 2, guardedClose := guarded } .drain
+
+/-- D28 as it was before the fix (86c4ce9): `divide_outputs` closed its outputs outside its exception handler.
+The saver of `yy` fails on the last chunk and kills `yy`; `yy.close()` raises in the divider, `zz` is neither closed
+nor killed: `discard_zz` waits forever, the consumer waits in `join` — a deadlock although a failure occurred.
+Threads: 0 build:tt, 1 divide_outputs:xx, 2 the divider, 3 build:ss, 4 save_0:yy, 5 discard_zz, 6 main. -/
+theorem divider_close_loop_old_counterexample :
+    (Net.run? (d28Net false) (Net.init (d28Net false))
+      [0, 1, 2, 4, 3, 1, 1, 1, 2, 2, 0, 0, 0, 2, 2, 2, 4, 4, 4, 3, 1, 1, 2, 2, 2, 0, 0, 2, 5, 5, 6, 6, 6, 6, 6, 6, 6, 6, 6,
+       6, 6, 6, 6]).map (fun s => (s.terminal (d28Net false), s.allEnded, s.outcome)) = some (true, false, none) := by
+  decide +kernel
+
+/-- with the handler around the closing loop (the code today) the same schedule prefix ends with every thread finished
+and the consumer raising the saver's exception 7 -/
+example : ∃ sched, (Net.run? (d28Net true) (Net.init (d28Net true)) sched).map
+    (fun s => (s.terminal (d28Net true), s.allEnded, s.outcome)) = some (true, true, some (.raised (.inj 7))) :=
+  ⟨[0, 1, 2, 4, 3, 1, 1, 1, 2, 2, 0, 0, 0, 2, 2, 2, 4, 4, 4, 3, 1, 1, 2, 2, 0, 0, 2, 2, 2, 2, 5, 6, 6, 6, 6, 6, 6, 6, 6,
+    6, 6, 6, 6, 6, 6, 6], by decide +kernel⟩
 
 end Strax.C06
